@@ -91,4 +91,17 @@ func init() {
 	seed(Seed{Name: "forall-parks-iterators", Prop: "C03", Rule: "ITER-FRESH", File: "distsys/tla/builtins.go",
 		Old: "\tvar helper func(idx int) bool\n\thelper = func(idx int) bool {\n\t\tif idx == len(sets) {\n\t\t\treturn pred(predArgs)\n\t\t}\n\n\t\tit := sets[idx].Iterator()\n\t\tfor !it.Done() {\n\t\t\telem, _, _ := it.Next()\n\t\t\tpredArgs[idx] = elem\n\t\t\tif !helper(idx + 1) {",
 		New: "\tparked := map[int]*immutable.MapIterator[Value, bool]{}\n\tvar helper func(idx int) bool\n\thelper = func(idx int) bool {\n\t\tif idx == len(sets) {\n\t\t\treturn pred(predArgs)\n\t\t}\n\n\t\tif parked[idx] == nil {\n\t\t\tparked[idx] = sets[idx].Iterator()\n\t\t}\n\t\tit := parked[idx]\n\t\tfor !it.Done() {\n\t\t\telem, _, _ := it.Next()\n\t\t\tpredArgs[idx] = elem\n\t\t\tif !helper(idx + 1) {", Expect: "QuantifiedUniversal"})
+	// TPC-DECISION
+	seed(Seed{Name: "acceptor-accepts-same-version-from-other-proposer", Prop: "C11", Rule: "TPC-DECISION", File: res + "twopc.go",
+		Old: "\t\t\t(twopc.acceptedPreCommit.Version == arg.Version &&\n\t\t\t\ttwopc.acceptedPreCommit.Sender.Equal(arg.Sender))) {", New: "\t\t\t(twopc.acceptedPreCommit.Version == arg.Version)) {", Expect: "receiveInternal:records-precommit"})
+	seed(Seed{Name: "acceptor-stale-window-off-by-one", Prop: "C11", Rule: "TPC-DECISION", File: res + "twopc.go",
+		Old: "\t} else if arg.Version < twopc.version+1 {", New: "\t} else if arg.Version < twopc.version {", Expect: "receiveInternal:"})
+	seed(Seed{Name: "quorum-one-short-for-odd-groups", Prop: "C11", Rule: "TPC-DECISION", File: res + "twopc.go",
+		Old: "\t\trequired = len(res.replicas)/2 + 1\n", New: "\t\trequired = len(res.replicas) / 2\n", Expect: "broadcast:quorum-size"})
+	seed(Seed{Name: "canaccept-while-precommitting", Prop: "C11", Rule: "TPC-DECISION", File: res + "twopc.go",
+		Old: "\t\tstate == acceptedNewValueInCriticalSection\n}", New: "\t\tstate == acceptedNewValueInCriticalSection ||\n\t\tstate == inPreCommit\n}", Expect: "canAcceptPreCommit"})
+	seed(Seed{Name: "proposal-reuses-current-version", Prop: "C11", Rule: "TPC-DECISION", File: res + "twopc.go",
+		Old: "\t\tRequestType: PreCommit,\n\t\tValue:       res.value,\n\t\tSender:      res.archetypeID,\n\t\tVersion:     res.version + 1,", New: "\t\tRequestType: PreCommit,\n\t\tValue:       res.value,\n\t\tSender:      res.archetypeID,\n\t\tVersion:     res.version,", Expect: "makePreCommit:next-version"})
+	seed(Seed{Name: "abort-keeps-written-value", Prop: "C11", Rule: "TPC-DECISION", File: res + "twopc.go",
+		Old: "\t\tres.value = res.oldValue\n\t\tif res.criticalSectionState == hasPreCommitted {", New: "\t\tif res.criticalSectionState == hasPreCommitted {", Expect: "Abort:restores-value"})
 }
